@@ -17,7 +17,7 @@
          from the token offsets = the formatted SpacesBefore), which is what makes
          a second Format a no-op on bytes.
    The separate functions tell the failure classes apart; fb_layout reports
-   the proved sufficient condition (FormatBytesProofs.relex_exact_nohd) so that
+   the proved sufficient condition (FormatBytesProofs.relex_exact_clean) so that
    the harness can count how many cases the theorem covers. *)
 From Coq Require Import String Ascii.
 From HclV Require Import Base.Prelude Gen.TokenTypes Lex.Scanner Lex.HclLex Write.Format
@@ -56,17 +56,18 @@ Definition fb_bytes_mismatches (cs : list fb_case) : list Z := failing fb_bytes_
 Definition fb_token_mismatches (cs : list fb_case) : list Z := failing fb_tokens_ok cs.
 Definition fb_space_mismatches (cs : list fb_case) : list Z := failing fb_spaces_ok cs.
 
-(* coverage of the theorem (FormatBytesProofs.relex_exact_nohd): clean, no heredoc,
+(* coverage of the theorem (FormatBytesProofs.relex_exact_clean): clean token types,
    local layout condition holds on the formatted list *)
 Definition fb_layout (c : fb_case) : bool :=
   let ts := fst c in
-  forallb (fun t => nohd_ty (ty t)) ts && layout_okb (format ts).
+  forallb (fun t => clean_ty (ty t)) ts && layout_okb (format ts).
 Definition fb_hazard_free (c : fb_case) : bool :=
   hazard_free (map (fun t => Scanner.mkTok (ty t) 0 0 (bytes t)) (fst c)).
 (* indices of cases where the proved sufficient condition holds *)
 Definition fb_covered (cs : list fb_case) : list Z := failing (fun c => negb (fb_layout c)) cs.
-(* cases that contradict the open statement relex_exact_hazard_free_stmt: clean,
-   hazard-free, and yet not stable — must stay [] *)
+(* cases that contradict the PROVED statement relex_exact_hazard_free_stmt on the real
+   code (clean, hazard-free, and yet not stable): a model/implementation divergence or a
+   formatter defect — must stay [] *)
 Definition fb_conjecture_violations (cs : list fb_case) : list Z :=
   failing (fun c => negb (forallb (fun t => clean_ty (ty t)) (fst c) && fb_hazard_free c)
                     || (fb_tokens_ok c && fb_spaces_ok c)) cs.
